@@ -178,6 +178,7 @@ def handleSpecial (stream : String) (args : List String) : String :=
   | "sharedudp", _ => "noncompared"
   | "hpktbuf", _ => "noncompared"
   | "rtcpmarshal", _ => "noncompared"
+  | "sctpflood", _ => "noncompared"
   | "turnclient", _ => "noncompared"
   | "sdpsdes", _ => "noncompared"
   | "udptlbuf", ms :: e0 :: ops =>
